@@ -123,6 +123,10 @@ func (r *msgReceiver) Read(data []byte) (n int, err error) {
 				return 0, err
 			}
 			r.tl = int(binary.BigEndian.Uint64(trailer))
+			if r.tl < 0 {
+				r.tl = 0
+				return 0, errors.New(ErrMaxValueLenExceeded)
+			}
 		}
 
 		// no more data in stream but buffer is not enough large to contains the expected value
